@@ -76,6 +76,7 @@ func wsConfs(thorough bool) []wsConf {
 
 // C15: websocket close protocol — single closer, single close frame, bounded time.
 func C15(c *core.Ctx) {
+	fine := setFine(c)
 	slack := 250 * time.Millisecond
 	base := runtime.NumGoroutine()
 	total, allEx := 0, true
@@ -134,9 +135,13 @@ func C15(c *core.Ctx) {
 				}
 			}
 		}
-		n, ex := wsExplore(c, "c15", cf, c.N(70, 6000), judge)
+		budget := c.N(70, 6000)
+		if fine {
+			budget = c.N(8, 1500)
+		}
+		n, ex := wsExplore(c, "c15", cf, budget, judge)
 		// free running: wall-clock durations are the library's own
-		for k := 0; k < c.N(2, 30); k++ {
+		for k := 0; k < c.N(2, 30) && !fine; k++ {
 			run := runWs(cf, nil, true)
 			c.Eval()
 			c.Hist("free-running " + cf.name)
@@ -156,6 +161,10 @@ func C15(c *core.Ctx) {
 		secs[cf.name] = fmt.Sprintf("%.1fs/%d", time.Since(t0).Seconds(), n)
 	}
 	c.Extra("seconds_per_configuration", secs)
+	if fine {
+		c.Extra("schedules", total)
+		return
+	}
 	// truly parallel closers (the gate's test-and-clear has no yield point inside: only real
 	// parallelism can split it): many rounds of 4 goroutines released at once
 	tPhase := time.Now()
@@ -176,6 +185,7 @@ func C15(c *core.Ctx) {
 
 // C16: websocket I/O exclusivity — one writer and one reader at a time.
 func C16(c *core.Ctx) {
+	fine := setFine(c)
 	K, L := wsOp{kind: "K"}, wsOp{kind: "L"}
 	W := func(b byte, n int) wsOp {
 		d := make([]byte, n)
@@ -196,7 +206,11 @@ func C16(c *core.Ctx) {
 	total, allEx := 0, true
 	for _, cf := range confs {
 		cf := cf
-		n, ex := wsExplore(c, "c16", cf, c.N(90, 8000), func(run wsRun, replay map[string]interface{}) {
+		budget := c.N(90, 8000)
+		if fine {
+			budget = c.N(12, 2500)
+		}
+		n, ex := wsExplore(c, "c16", cf, budget, func(run wsRun, replay map[string]interface{}) {
 			if run.twoInside != "" {
 				c.Violation("judge-go", "c16-overlap", run.twoInside+" ("+cf.name+")", replay)
 			}
@@ -227,6 +241,10 @@ func C16(c *core.Ctx) {
 		total += n
 		allEx = allEx && ex
 		c.Sample(map[string]interface{}{"configuration": cf.name, "schedules": n, "exhaustive": ex})
+	}
+	if fine {
+		c.Extra("schedules", total)
+		return
 	}
 	// a custom ReadHandler that returns an error for a HEALTHY message: Listen returns the error;
 	// a second Listen must still not put a second reader on the connection
